@@ -88,17 +88,25 @@ def select_projects(tier, rng):
     projs = []
     for h in P.HAND:
         projs.append({"name": h["name"], "lang": h["lang"], "files": pack_files(h["files"]), "settings": h["settings"],
-                      "extra": list(h["extra"]), "origin": "hand"})
+                      "extra": list(h["extra"]), "origin": "hand", "probe_fields": P.PROBE_FIELDS.get(h["name"])})
     thorough = tier == "thorough"
     gen_langs = list(P.LANGS)
     rng.shuffle(gen_langs)
     n_gen = 14 if thorough else 2
     for i in range(n_gen):
         lang = gen_langs[i % len(gen_langs)]
-        g = P.gen_wide(lang, rng, n_funcs=rng.randint(8, 12) if thorough else rng.randint(6, 8),
+        g = P.gen_wide(lang, rng, n_funcs=rng.randint(8, 12) if thorough else rng.randint(5, 6),
                        n_classes=rng.randint(2, 5), n_files=rng.randint(2, 4))
         projs.append({"name": f"gen_wide_{lang}_{i}", "lang": lang, "files": pack_files(g["files"]), "settings": g["settings"],
-                      "extra": [], "origin": "generated"})
+                      "extra": [], "origin": "generated", "probe_fields": g["probe_fields"]})
+    # nested-object writers only (callees adding several fields to objects 1-2 hops from a parameter / this / a returned
+    # object): one per frontend in thorough; in quick one, rotating over the frontends with the seed
+    nest_langs = list(P.LANGS)
+    rng.shuffle(nest_langs)
+    for i, lang in enumerate(nest_langs[: (len(nest_langs) if thorough else 1)]):
+        g = P.gen_nested(lang, rng, n_units=2)
+        projs.append({"name": f"gen_nested_{lang}_{i}", "lang": lang, "files": pack_files(g["files"]), "settings": g["settings"],
+                      "extra": [], "origin": "generated", "probe_fields": g["probe_fields"]})
     # option variants of hand-written projects: the statement says "same options", whatever they are
     variants = [("py_store_taint", ["--graph"]), ("js_classes_taint", ["--enable-p2"])]
     if thorough:
@@ -110,7 +118,7 @@ def select_projects(tier, rng):
         projs.append(dict(b, name=nm + "+" + "".join(extra).replace("--", "_").strip("_"), extra=list(extra), origin="hand-options"))
     dirs, files = P.corpus_projects(common.REPO, thorough)
     if thorough:
-        chosen = dirs + rng.sample(files, min(len(files), 62))
+        chosen = dirs + rng.sample(files, min(len(files), 56))
     else:
         # one small corpus directory and one single corpus file, rotating with the seed
         rng.shuffle(dirs)
@@ -233,7 +241,8 @@ class Plan:
              "lock": lock or os.path.join(self.root, "locks", _safe(workspace)),
              "keep": os.path.join(self.root if not workspace.startswith(self.tmpfs_root or "\0") else self.tmpfs_root,
                                   "keep", _safe(jid)),
-             "pre": list(pre), "timeout": self.timeout, "hashseed": seed, "cli_timeout": max(300, self.timeout), "order": order}
+             "pre": list(pre), "timeout": self.timeout, "hashseed": seed, "cli_timeout": max(300, self.timeout), "order": order,
+             "probe_fields": proj.get("probe_fields") if variant == "base" else None}
         lst = self.jobs.setdefault(seed, [])
         if front:
             lst.insert(0, j)
@@ -286,14 +295,14 @@ def build_plan(projs, seeds, tier, rng, root, tmpfs_root, timeout, probe=None):
             if s != s0:
                 plan.pairs.append(("hash-seed", p["name"], base[s0], base[s], "bytes", f"PYTHONHASHSEED {s0} vs {s}"))
         # repetitions
-        rep_seeds = (seeds if not p.get("heavy") else [s0]) if thorough else ([next_seed(), next_seed()] if i % 3 == 0 else [])
+        rep_seeds = (seeds if not p.get("heavy") else [s0]) if thorough else ([next_seed()] if i % 3 == 0 else [])
         for s in rep_seeds:
             for r in (1, 2):
                 j = plan.job(p, s, f"rep{r}", workspace=p["same_ws"], **common_kw)
                 plan.pairs.append(("repetition", p["name"], base[s], j, "bytes", f"run {r + 1} vs run 1, PYTHONHASHSEED {s}"))
         # workspace location: other absolute paths of different length (one already containing 'lian_workspace')
         locs = [("loc-long", os.path.join(root, "elsewhere_with_a_considerably_longer_directory_name", _safe(p["name"]), "nested", "deeper"))]
-        if (thorough and not p.get("heavy")) or (not thorough and i % 2 == 0):
+        if (thorough and not p.get("heavy")) or (not thorough and i % 4 == 0):
             locs.append(("loc-named", os.path.join(root, "w", _safe(p["name"])[:40], "my_lian_workspace_dir")))
         for tag, ws in locs:
             s = next_seed()
@@ -302,7 +311,7 @@ def build_plan(projs, seeds, tier, rng, root, tmpfs_root, timeout, probe=None):
         if probe:
             plan.pairs.append(("workspace-path", p["name"], base[s0], f"{p['name']}|s{s0}|loc-probe", "decoded", f"loc-probe, PYTHONHASHSEED {s0}"))
         # process history
-        if (thorough and not p.get("heavy") and i % 2 == 0) or (not thorough and i % 3 == 1):
+        if (thorough and not p.get("heavy") and i % 2 == 0) or (not thorough and i % 4 == 1):
             cands = [o for o in others_pool if o["name"].split("+")[0] != p["name"].split("+")[0]]
             other = cands[(i * 7) % len(cands)]
             other2 = cands[(i * 7 + 3) % len(cands)]
@@ -689,6 +698,18 @@ def main():
                        ("decoded_compared", "artefact file pairs compared at decoded level")):
         chk.count(label, sum(v for d, v in stats[key].items() if d != "cli-vs-fork"))
     chk.count("projects whose taint/ report is non-empty", len(taint_nonempty))
+    # workload probe: did the nested-object writers really make P3 merge callee-added fields into an object that already
+    # had fields of its own (all names of a group inside ONE state's `fields` dict of s2space_p3)?
+    merged, merged_projects = 0, {}
+    for p in projs:
+        r = results.get(f"{p['name']}|s{s0}|base")
+        if p.get("probe_fields") and p["name"] not in skipped and r and r["status"] == "ok" and r["value"].get("probe_hits"):
+            h = sum(1 for x in r["value"]["probe_hits"] if x)
+            merged += h
+            merged_projects[p["name"]] = f"{h}/{len(p['probe_fields'])}"
+    chk.count("nested-object merges observed in s2space_p3 (callee-added fields beside the object's own fields, one state)", merged)
+    chk.count("projects in which such a merge was observed", sum(1 for v in merged_projects.values() if not v.startswith("0/")))
+    chk.extra["nested_merge_probe(hits/groups)"] = merged_projects
     chk.extra["per_dimension"] = {d: {"run_pairs": stats["pairs"].get(d, 0), "file_pairs": stats["files_compared"].get(d, 0),
                                       "byte_identical_file_pairs": stats["byte_identical"].get(d, 0)} for d in DIMS + ("cli-vs-fork",)}
     chk.extra["artefacts_embedding_a_location"] = {k: sorted(v) for k, v in sorted(stats["embedding_files"].items())}
@@ -714,6 +735,8 @@ def main():
     chk.require("artefact file pairs compared", 5000 if not thorough else 80000)
     chk.require("projects whose taint/ report is non-empty", 4)
     chk.require("frontends covered", 7)
+    chk.require("nested-object merges observed in s2space_p3 (callee-added fields beside the object's own fields, one state)", 6 if not thorough else 20)
+    chk.require("projects in which such a merge was observed", 4 if not thorough else 10)
     chk.assumptions += [
         "the tree under test is copied verbatim (src/, default_settings/) when the check starts and every process of this invocation runs the copy, so that a commit landing in the repository meanwhile cannot make the two runs of a pair execute different code",
         "separate processes = one forked child per analysis from a per-hash-seed zygote (lian imported once, YAML memo); a few true CLI runs per tier check that the forked run leaves the same bytes as `python src/lian/main.py run …`",
